@@ -291,10 +291,10 @@ def corr(ctx):
         mask = None if rng.random() < 0.5 else rng.random(K) < 0.7
         eps = float(rng.choice([0.0, 1e-10, 1e-3]))
         perm = rng.permutation(K)
-        base = mmu.log_pdf_to_affiliation(wgt[:, None], lp[:, None].copy(),
+        base = mmu.log_pdf_to_affiliation(wgt[:, None], lp[:, None].copy(order='K'),
                                           source_activity_mask=None if mask is None else mask[:, None],
                                           affiliation_eps=eps)[:, 0]
-        permd = mmu.log_pdf_to_affiliation(wgt[perm][:, None], lp[perm][:, None].copy(),
+        permd = mmu.log_pdf_to_affiliation(wgt[perm][:, None], lp[perm][:, None].copy(order='K'),
                                            source_activity_mask=None if mask is None else mask[perm][:, None],
                                            affiliation_eps=eps)[:, 0]
         lines.append(f'aff {K} {0 if mask is None else 1} {fbits([tiny])} {fbits([eps])} {fbits(wgt[perm])} {fbits(lp[perm])}'
